@@ -423,7 +423,8 @@ pub fn run(o: &mut Out, tier: &str, seed: u64) {
             let id0 = crate::c06::block_id_case(o, &b, "c01.generated");
             for _ in 0..2 { let mut m = b.clone(); let pos = r.below(b.len() as u64) as usize; m[pos] ^= 1 << r.below(8);
                 let idm = crate::c06::block_id_case(o, &m, "c01.neighbour");
-                if !idm.starts_with("err") { o.stat("blockid.neighbour.parsed"); o.direct(idm != id0, "C01: two different accepted block byte strings have different identifiers", format!("c06_block {} - - -", trunc(&hex(&m), 600)), idm.clone(), format!("anything but {}", trunc(&id0, 200))); } }
+                let idf = |l: &str| l.split(' ').nth(3).unwrap_or("").to_string();
+                if !idm.starts_with("err") { o.stat("blockid.neighbour.parsed"); o.direct(idf(&idm) != idf(&id0), "C01: two different accepted block byte strings have different identifiers", format!("c06_block {} - - -", trunc(&hex(&m), 600)), idm.clone(), format!("anything but {}", trunc(&id0, 200))); } }
         }
     }
     // blocks around the historical block 202612 (the one hard-coded identifier): the real block, and generated blocks whose `prev_id` is the
@@ -436,7 +437,7 @@ pub fn run(o: &mut Out, tier: &str, seed: u64) {
           for (k, sp) in specials.iter().enumerate() { for variant in 0..3 {
               let mut blk = gen::block(&mut r, (k + variant) % 4); let mut pid = *sp; if variant == 2 { pid[7] ^= 1; } blk.header.prev_id = monero::Hash(pid);
               let b = serialize(&blk); let id = crate::c06::block_id_case(o, &b, "c01.around-202612"); o.stat("blockid.around-202612");
-              o.direct(ids.insert(id.clone()), "C01: competing blocks for the height of block 202612 (same prev_id, different bytes) have different identifiers", format!("c06_block {} - - -", trunc(&hex(&b), 600)), id, "an identifier not seen before".into()); } } } }
+              o.direct(ids.insert(id.split(' ').nth(3).unwrap_or("").to_string()), "C01: competing blocks for the height of block 202612 (same prev_id, different bytes) have different identifiers", format!("c06_block {} - - -", trunc(&hex(&b), 600)), id, "an identifier not seen before".into()); } } } }
     // declared-length attacks at and around the allocation cap, at every vector position
     let cap = monero::consensus::encode::MAX_VEC_MEM_ALLOC_SIZE as u64;
     for (ty, sz) in [("vec_u8", 1u64), ("vec_varint", 8), ("vec_key", 32), ("vec_txin", std::mem::size_of::<TxIn>() as u64), ("vec_txout", std::mem::size_of::<TxOut>() as u64)] {
